@@ -66,7 +66,8 @@ def analyse(base, chk, fname, variant="distinct"):
                 if kind == "w":
                     # lazily built package-level data: written only inside the initialiser of a package-level Once
                     if real:
-                        summary["guards"].setdefault(g, set()).update(real)
+                        # the innermost running initialiser is the one that builds g (initialisers may call one another)
+                        summary["guards"].setdefault(g, set()).add(real[-1])
                     else:
                         summary["writes_outside_once"].append(g)
                 else:
